@@ -69,12 +69,16 @@ PROFILE_KEYS = {'temp_profile': lambda m: m.temperatureProfile,
 OBS_LAYOUT = '3col-nonuniform'
 
 
-def _values(name, n, perm_index):
+def _values(name, n, perm_index, dup=None):
     base = LATTICE[name][:n]
     jit = fx.rng('c09', name).uniform(-0.004, 0.004, size=5)[:n]
     vals = [b * (1.0 + j) for b, j in zip(base, jit)]
     perm = list(itertools.permutations(range(n)))[perm_index]
-    return [vals[i] for i in perm]
+    out = [vals[i] for i in perm]
+    if dup is not None:
+        # repeated values: sample i takes the value of sample dup[i] (exactly equal floats)
+        out = [out[j] for j in dup]
+    return out
 
 
 def _split(case, n):
@@ -112,7 +116,7 @@ def fit_case(case):
     # ---- the enumerated sample set ------------------------------------------------------------
     cols = {}
     for j, name in enumerate(fitted):
-        cols[name] = _values(name, n, case['perm'][j])
+        cols[name] = _values(name, n, case['perm'][j], case.get('dup') if name == 'T' else None)
     wint = np.array(case['weights'], dtype=float)
     # ---- real objects ---------------------------------------------------------------------------
     nb = len(dr.LAYOUTS[OBS_LAYOUT]['wl'])
@@ -293,9 +297,11 @@ def _quantiles(r, e, x, w, tag, name, rtol=1e-9):
 
 
 # ----------------------------------------------------------------------------------------------
-def _case(sampler, n, d, weights, perm=None, derived='mu', split=None, wscale='norm'):
+def _case(sampler, n, d, weights, perm=None, derived='mu', split=None, wscale='norm', dup=None):
     c = {'sampler': sampler, 'n': n, 'd': d, 'weights': list(weights),
          'perm': list(perm) if perm is not None else [0] * d, 'derived': derived}
+    if dup is not None:
+        c['dup'] = list(dup)
     if wscale != 'norm':
         c['wscale'] = wscale
     if sampler in ('mn-multi2', 'pc-cluster2'):
@@ -359,6 +365,19 @@ def explore(ctx):
                 for perm in ([[4, 2, 5]] if quick else [[0, 0, 0], [4, 2, 5]]):
                     add(_case(sl, 3, 3, w, perm=perm, derived=dv, split=2))
                 add(_case(sl, 3, 2, w, perm=[3, 1], derived=dv, split=1))
+    # repeated trace values: every way two or three of the samples share one temperature exactly, every weight vector
+    dups3 = [[0, 0, 1], [0, 1, 0], [0, 1, 1], [1, 0, 0], [2, 2, 0], [0, 0, 0]]
+    dups4 = [[0, 0, 1, 2], [0, 1, 1, 2], [0, 1, 2, 2], [0, 0, 1, 1], [1, 0, 1, 0], [0, 2, 2, 2], [3, 0, 0, 3]]
+    for sl in (['nestle', 'mn-single', 'pc-nocluster'] if quick else SAMPLER_LETTERS):
+        for w in weight_vectors(3):
+            for dp in dups3:
+                add(_case(sl, 3, 2, w, perm=[0, 2], split=1, dup=dp))
+                if sl == 'nestle':
+                    add(_case(sl, 3, 1, w, perm=[0], split=1, dup=dp))
+        for w in ([(1, 1, 1, 1), (1, 2, 3, 0), (3, 0, 0, 1), (0, 2, 2, 1), (2, 3, 2, 3), (1, 3, 1, 2)] if quick
+                  else weight_vectors(4)):
+            for dp in dups4:
+                add(_case(sl, 4, 2, w, perm=[0, 5], split=2, dup=dp))
     if not quick:
         # n = 4: all T-permutations on a weight sub-alphabet; n = 5: slice
         w4 = [(1, 1, 1, 1), (1, 2, 3, 0), (3, 0, 0, 1), (0, 2, 2, 1), (2, 3, 2, 3)]
